@@ -131,6 +131,9 @@ class Gen:
             self.emit(["crb", t[1]])
         elif c == "updcommit":
             self.tokens = []
+            if self.disc:
+                self.handles = [(ci, False) for ci, _ in self.handles]
+                self.clear()
             if self.disc or rng.random() < 0.7:
                 self.emit(["update"])
             self.emit(["commit"])
@@ -169,6 +172,10 @@ ALPHABET = [
     ["set", 1, 0, 3], ["set", 0, 1, 4], ["stage", 0], ["stage", 1], ["snap"], ["rb", 0], ["csnap", 0], ["crb", 0],
     ["update"], ["commit"],
 ]
+
+
+# every disciplined trace ends by persisting everything and reading the two contracts back
+EPILOGUE = [["clear"], ["update"], ["commit"], ["reopen"], ["open", 2], ["open", 3]]
 
 
 def erase_spans(ops, spans):
@@ -262,11 +269,12 @@ def run_engine(ctx, binp, traces, tag):
     return res
 
 
-def model_check(ctx, traces, results, tag, shard=400):
+def model_check(ctx, traces, results, tag, shard=200):
     """Returns list of (trace index, step index) where model and implementation differ, or None
-    when the evaluation itself failed (with the log)."""
-    bad = []
-    for s in range(0, len(traces), shard):
+    when the evaluation itself failed (with the log).  Shards are evaluated in parallel."""
+    from concurrent.futures import ThreadPoolExecutor
+
+    def one(s):
         items = [coq_trace(traces[i], results[i]) for i in range(s, min(s + shard, len(traces)))]
         txt = HEADER + ["Definition traces : list trace := [%s]." % ";\n".join(items),
                         "Definition M := Eval vm_compute in bad_traces traces 0.", "Print M."]
@@ -280,8 +288,15 @@ def model_check(ctx, traces, results, tag, shard=400):
         found = re.findall(r"\((\d+)(?:%nat)?\s*,\s*(\d+)(?:%nat)?\)", m.group(1))
         if not found and m.group(1) not in ("[]", "nil"):
             return None, "could not parse the list of disagreeing traces: " + m.group(1)[:300]
-        for a, b in found:
-            bad.append((s + int(a), int(b)))
+        return [(s + int(a), int(b)) for a, b in found], ""
+
+    # long traces are expensive: order by size so that shards are balanced
+    bad = []
+    with ThreadPoolExecutor(max_workers=6) as ex:
+        for r, log in ex.map(one, range(0, len(traces), shard)):
+            if r is None:
+                return None, log
+            bad += r
     return bad, ""
 
 
@@ -358,7 +373,7 @@ def run(ctx):
     # root independence: the disciplined trace with its reverted spans erased, both finished by update+commit
     pairs = []
     for g in rnd_d:
-        full = g.ops + [["clear"], ["update"], ["commit"]]
+        full = g.ops + EPILOGUE
         top = []
         for s, e in sorted(g.spans):
             if top and s >= top[-1][0] and e <= top[-1][1]:
@@ -366,15 +381,15 @@ def run(ctx):
             while top and top[-1][0] >= s:
                 top.pop()
             top.append((s, e))
-        erased = erase_spans(g.ops, top) + [["clear"], ["update"], ["commit"]]
+        erased = erase_spans(g.ops, top) + EPILOGUE
         pairs.append((full, erased, g))
     traces = ex + [p[0] for p in pairs] + [p[1] for p in pairs] + [g.ops for g in rnd_w]
     results = run_engine(ctx, binp, traces, "main")
 
     # ---- direct predicates on the implementation's own observations
     base = len(ex)
-    for pi, (full, erased, g) in enumerate(pairs):
-        of, oe = results[base + pi], results[base + len(pairs) + pi]
+
+    def eval_pair(full, erased, g, of, oe):
         # (1) every disciplined revert restores exactly what was visible right after the snapshot
         for s, e in g.spans:
             if e < len(of) and s < len(of) and not of[e].get("p") and not of[s].get("p"):
@@ -384,10 +399,10 @@ def run(ctx):
                                        "at_snapshot": visible(of[s]), "after_revert": visible(of[e])}))
         # (2) reverted writes influence neither the root nor what is read back after commit
         if len(of) == len(full) and len(oe) == len(erased) and not of[-1].get("p") and not oe[-1].get("p"):
-            if visible(of[-1]) != visible(oe[-1]):
+            if visible(of[-1]) != visible(oe[-1]) or of[-1].get("h") != oe[-1].get("h"):
                 pred_fail.append(("C12:reverted-write-leaks", "state root / persisted data differ between a run with reverted writes and the run without them",
                                   {"ops_with_reverted": full, "ops_without": erased,
-                                   "final_with": visible(of[-1]), "final_without": visible(oe[-1])}))
+                                   "final_with": [visible(of[-1]), of[-1].get("h")], "final_without": [visible(oe[-1]), oe[-1].get("h")]}))
         # (3) reads return the latest non-reverted write: plain accounts a0, a1 against an explicit
         #     stack of frames (never opened as contracts, so Update does not touch them)
         vis, frames = {}, []
@@ -415,9 +430,89 @@ def run(ctx):
                                   {"ops": full[: si + 1], "account": UA[bad_acc[0]], "read": seen_acc.get(bad_acc[0]),
                                    "expected": vis.get(bad_acc[0])}))
                 break
+        # (4) the same for contract storage read through every live handle: committed maps, staged
+        #     overlays (snapshotted / restored by block snapshots), private overlays of unstaged handles
+        committed, staged, sframes, hs, ctoks = {}, {}, [], [], []      # storages are dict objects (identity matters)
+        for si, op in enumerate(full):
+            if si >= len(of) or of[si].get("p"):
+                break
+            k = op[0]
+            if k == "open":
+                c = op[1]
+                hs.append([c, staged[c] if c in staged else {}, True])     # alias of the staged object, or a private one
+            elif k in ("set", "del"):
+                hs[op[1]][1][op[2]] = op[3] if k == "set" else None
+            elif k == "stage":
+                h = hs[op[1]]
+                staged[h[0]] = h[1]
+                h[2] = False
+            elif k == "csnap":
+                ctoks.append((op[1], dict(hs[op[1]][1])))
+            elif k == "crb":
+                hi, saved = ctoks[op[1]]
+                hs[hi][1].clear()
+                hs[hi][1].update(saved)
+            elif k == "snap":
+                sframes.append({c: dict(o) for c, o in staged.items()})
+            elif k == "rb":
+                fr = sframes[op[1]]
+                for c in list(staged):
+                    if c in fr:
+                        staged[c].clear()
+                        staged[c].update(fr[c])
+                    else:
+                        del staged[c]
+            elif k == "clear":
+                hs, ctoks = [], []
+            elif k == "commit":                                          # always preceded by update in disciplined traces
+                for c, ov in staged.items():
+                    base_c = committed.setdefault(c, {})
+                    for kk, vv in ov.items():
+                        if vv is None:
+                            base_c.pop(kk, None)
+                        else:
+                            base_c[kk] = vv
+                    ov.clear()
+            elif k == "reopen":
+                staged, sframes, hs, ctoks = {}, [], [], []
+            if k == "rb":
+                continue        # the handles of the reverted span are forgotten by the next operation (clear)
+            sec = of[si].get("h") or [0]
+            pos, bad_h = 1, None
+            if sec[0] != len(hs):
+                bad_h = ("handle count", sec[0], len(hs))
+            for hi, h in enumerate(hs):
+                if bad_h:
+                    break
+                if sec[pos] == 0:
+                    if h[2]:
+                        bad_h = (hi, "dead", "live")
+                    pos += 1
+                    continue
+                if not h[2]:
+                    bad_h = (hi, "live", "dead")
+                pos += 2                                                  # live flag, revision
+                ov = h[1]
+                for kk in range(len(UK)):
+                    want = ov[kk] if kk in ov else committed.get(h[0], {}).get(kk)
+                    if sec[pos] == 0:
+                        got = None
+                        pos += 1
+                    else:
+                        got = sec[pos + 1]
+                        pos += 2
+                    if got != want and not bad_h:
+                        bad_h = (hi, UK[kk], got, want)
+            if bad_h:
+                pred_fail.append(("C12:stale-storage-read", "a contract storage read does not return the latest non-reverted write",
+                                  {"ops": full[: si + 1], "detail": bad_h}))
+                break
         if any(o.get("p") for o in of):
             pred_fail.append(("C12:panic", "panic (or out-of-contract call) in a disciplined trace",
                               {"ops": full[: len(of)]}))
+
+    for pi, (full, erased, g) in enumerate(pairs):
+        eval_pair(full, erased, g, results[base + pi], results[base + len(pairs) + pi])
 
     # ---- model / implementation correspondence
     call = ctraces + traces
@@ -457,6 +552,26 @@ def run(ctx):
     if results:
         ctx.sample({"ops": traces[base][:12], "obs_step0": results[base][0]})
         ctx.sample({"ops": ex[min(300, len(ex) - 1)], "obs_last": results[min(300, len(ex) - 1)][-1]})
+
+    # ---- a correspondence or proof break without a failing input: spend more budget on the direct
+    #      predicates (more disciplined traces with erased twins) before reporting "no failing input"
+    if (corr_broken or not pr["ok"]) and not pred_fail:
+        extra = []
+        for i in range(300 if quick else 3000):
+            g = gen_trace(rng, rng.randrange(8, 80), True)
+            full = g.ops + EPILOGUE
+            top = []
+            for s_, e_ in sorted(g.spans):
+                if top and s_ >= top[-1][0] and e_ <= top[-1][1]:
+                    continue
+                while top and top[-1][0] >= s_:
+                    top.pop()
+                top.append((s_, e_))
+            extra.append((full, erase_spans(g.ops, top) + EPILOGUE, g))
+        xres = run_engine(ctx, binp, [p[0] for p in extra] + [p[1] for p in extra], "search")
+        for pi, (full, erased, g) in enumerate(extra):
+            eval_pair(full, erased, g, xres[pi], xres[len(extra) + pi])
+        ctx.cov["input_distribution"]["directed_search_traces"] = 2 * len(extra)
 
     # ---- decide
     seen = set()
